@@ -1,7 +1,7 @@
 (* C02 — escaped HTML output carries no input-controlled markup or script URLs. *)
 From Coq Require Import ZArith List Bool Lia.
 From Verif Require Import PyStr Util UtilGen UtilProofs Tmpl HtmlRender TmplCheck TmplGen C18
-     Rx RxSpec RxAnalysis UnicodeGen RxGen.
+     Rx RxSpec RxAnalysis UnicodeGen RxGen Inline Block Doc HtmlDoc HtmlDocProofs Entry.
 Import ListNotations.
 Open Scope Z_scope.
 
@@ -41,6 +41,28 @@ Proof.
   apply (template_sound E escape_ops harmful_protocols good_data_protocols eq_refl escape_free sig fixed t vals H Hv Hd Hall Hch).
 Qed.
 
+(* ---- (a') the same for whole documents: the induction over the token tree ---- *)
+(* For the executable model of the whole core conversion (Model/Doc.v + Model/HtmlDoc.v, tied to
+   create_markdown(escape=True) by the HTML correspondence run of this check): for EVERY document, every token of the
+   AST - at every depth - is rendered by a call that satisfies the reading property above (node_safe / tok_safe carry it
+   down the tree; the children_ok hypothesis is discharged by the induction), and the complete output brings the reader
+   back to character data. *)
+Theorem C02_whole_document_no_injected_markup : forall hw s out,
+  core_html true hw s = Ok out ->
+  exists ast, core_doc_parse hw s = Ok ast /\ out = html_doc E escape_ops ast /\
+              Forall (node_safe E escape_ops) ast /\ hrun Data out = Data.
+Proof.
+  intros hw s out H. unfold core_html, bind in H. destruct (core_doc_parse hw s) as [ast| |] eqn:Ea; try discriminate.
+  inversion H; subst out. exists ast. split; [reflexivity|]. split; [reflexivity|].
+  exact (doc_safe E escape_ops eq_refl
+           (fun t sig fixed vals Hin Hv Hd Hs Hc => C02_no_injected_markup t sig fixed vals Hin Hv Hd Hs Hc) ast).
+Qed.
+
+Example C02_whole_document_example :
+  core_html true false [60; 98; 62; 32; 91; 120; 93; 40; 106; 97; 118; 97; 115; 99; 114; 105; 112; 116; 58; 97; 41; 10] =
+  Ok [60; 112; 62; 38; 108; 116; 59; 98; 38; 103; 116; 59; 32; 60; 97; 32; 104; 114; 101; 102; 61; 34; 35; 104; 97; 114; 109; 102; 117; 108; 45; 108; 105; 110; 107; 34; 62; 120; 60; 47; 97; 62; 60; 47; 112; 62; 10].
+Proof. vm_compute. reflexivity. Qed.
+
 (* ---- (b) script URLs: what the browser reads back from an href/src produced by safe_url ---- *)
 Definition harmful (u : str) : bool :=
   let l := map ascii_lower u in has_prefix_in harmful_protocols l && negb (has_prefix_in good_data_protocols l).
@@ -76,3 +98,4 @@ Proof. vm_compute. reflexivity. Qed.
 Print Assumptions C02_no_injected_markup.
 Print Assumptions C02_no_script_url.
 Print Assumptions C02_ruby_text_is_safe.
+Print Assumptions C02_whole_document_no_injected_markup.
